@@ -6,6 +6,8 @@ Three layers, all driven by VERIF_SEED:
      A Q − Q T supported in the last column, q_0 = v/‖v‖, Q T Qᵀ = A at full dimension, shapes, expected count;
   B. correspondence: every column (batch member x init vector) of the f64 cells of moderate size is replayed
      on the Lean model in Float (`LinOp.C09.Driver`): Q, T, count (toleranced; robust margins only, discards counted);
+     B'. whole multi-column calls replayed as ONE run of the coupled model `lanczosMulti` (`lzm`): shared count, per-column
+     prefix of Q/T up to the column's own breakdown, NaN pattern of an exactly exhausted column, extra passes (tol = -1);
   C. post-processing on operators: root_decomposition / root_inv_decomposition / diagonalization with
      method="lanczos" (dense-backed and structured classes of harness/catalogue.py), with the (Q, T) of the
      wrapped `lanczos_tridiag` call as witness: R Rᵀ = Q (T + jI)₊ Qᵀ, = A (+ j) at full dimension, inverse roots,
@@ -644,9 +646,11 @@ def run_coupled(chk, seed, lines):
                                 want = m if not deficient else (2 if kind == "mixed" else 1)
                                 if kind == "rankdef":
                                     want = mc
-                                if mc < min(want, m):
+                                if deficient and mc < min(want, m):
                                     fails.append(f"column (init {c}, batch {b}): off-diagonal entry {mc - 1} of T is {off[mc - 1]:.1e}, no breakdown expected before vector {want}")
-                                mc = min(mc, want)
+                                # a small (but legitimate) off-diagonal entry of a generic column is no failure: its invariants are
+                                # demanded on all returned vectors; only the comparison with the model stops at the model's margin
+                                mc = min(mc, want) if (deficient or kind == "rankdef") else m
                                 fails += [f"column (init {c}, batch {b}): " + f for f in column_prefix_fails(Af[b], Qc, Tc, mc, 1e-7)]
                                 if not (torch.equal(Tc, Tc.T) or bool(torch.isnan(Tc).any())):
                                     fails.append(f"column (init {c}, batch {b}): T not symmetric")
@@ -692,17 +696,15 @@ def check_coupled(chk, lines):
         elif passes != 0:
             chk.count("coupled_discard=extra-passes")
             continue
-        # robustness of every continue / break decision of the shared loop, read off the model's betas
+        # robustness of the threshold decisions of the shared loop: no beta written by the model (any column, any iteration,
+        # the breaking one included) lies near the absolute 1e-6 — each is clearly above (> 1e-3), clearly below (< 1e-9) or NaN;
+        # then rounding noise cannot flip a `beta.abs() > 1e-6` test, whatever way the tests of the columns are combined
         L = sup.shape[-1] if sup.numel() else 0
         own = [prefix_len(sup[i].tolist()[: max(cm - 1, 0)]) for i in range(len(cols))] if L else [1] * len(cols)
         robust = True
-        for j in range(cm - 1):  # the loop went on after beta_j was written
-            if not any(own[i] - 1 > j for i in range(len(cols))):
-                robust = False
-        if cm < n_iter and kind != "tolneg" and L >= cm:
-            last = sup[:, cm - 1]
-            if not bool(((last.abs() < 1e-9) | torch.isnan(last)).all()):
-                robust = False
+        if L:
+            a = sup.abs()
+            robust = bool(((a > 1e-3) | (a < 1e-9) | torch.isnan(sup)).all())
         if cm != m:
             if robust:
                 chk.corr_break(cid, f"count: implementation {m}, coupled model {cm}", payload)
@@ -739,6 +741,47 @@ def chk_extra_passes(n_iter):
     """tol = -1: every inner product is above tol, so the first loop iteration with a re-orthogonalisation block runs all
     10 passes, `could_reorthogonalize` stays False and the loop is left (no block at all when num_iter = 2)"""
     return 10 if n_iter > 2 else 0
+
+
+
+def run_mins(chk, seed):
+    """`mins` of the jitter statements (RootDecomposition.forward / Diagonalization.forward, evaluated as the source writes
+    them) against the Lean `minDiag` (driver `mind`) and the plain minimum of the diagonal; bit-for-bit."""
+    from linear_operator import to_linear_operator
+    cases = []
+    for m in (1, 2, 3, 5, 8):
+        for kind in ("generic", "ties", "negative", "min-first", "min-last"):
+            cid = f"C09/jitter/mins/m={m}/{kind}/f64"
+            g = gen_for(seed, cid)
+            d = 1.0 + 3.0 * torch.rand(m, generator=g, dtype=F64)
+            if kind == "ties":
+                d = torch.round(d)
+            elif kind == "negative":
+                d = d - 2.5
+            elif kind == "min-first":
+                d[0] = 0.25
+            elif kind == "min-last":
+                d[-1] = 0.25
+            off = torch.rand(max(m - 1, 0), generator=g, dtype=F64)
+            T = torch.diag(d) + torch.diag(off, 1) + torch.diag(off, -1)
+            cases.append((cid, T, d))
+    outs = chk.run_driver("C09", [f"mind {T.shape[-1]} {fvec(d)}" for (_, T, d) in cases])
+    if outs is None:
+        return
+    for (cid, T, d), out in zip(cases, outs):
+        payload = {"kind": "mins", "seed": seed, "cell": cid}
+        chk.case(f"{cid} d0={d[0].item()}", nontrivial=T.shape[-1] > 1)
+        chk.count("jitter_mins")
+        spec = min(d.tolist())
+        impl_root = to_linear_operator(T)._diagonal().min(dim=-1, keepdim=True)[0].unsqueeze(-1)
+        impl_diag = torch.diagonal(T, dim1=-1, dim2=-2).min(dim=-1, keepdim=True)[0]
+        if float(impl_root.reshape(-1)[0]) != spec or float(impl_diag.reshape(-1)[0]) != spec or impl_root.numel() != 1 or impl_diag.numel() != 1:
+            chk.violation(cid, f"mins of the jitter statements = {impl_root.tolist()} / {impl_diag.tolist()}, smallest diagonal entry {spec}", payload)
+            continue
+        if not out.startswith("min=") or unbits(out[4:]) != spec:
+            chk.corr_break(cid, f"minDiag of the model gives {out[:40]}, implementation {spec}", payload)
+        else:
+            chk.traces_validated += 1
 
 
 # ------------------------------------------------------------------------------------------------ layer C
@@ -1225,18 +1268,23 @@ def run(chk):
     check_corr(chk, corr_lines)
     check_post(chk, post_lines)
     check_coupled(chk, coupled_lines)
+    run_mins(chk, seed)
     chk.extra["correspondence_lines"] = len(corr_lines) + len(post_lines) + len(coupled_lines)
     chk.extra["coupled_lines"] = len(coupled_lines)
     chk.rule = ("cells = spectrum family {fullrank, rankdef, repeated, int} x n in 2..64 x batch shape x init kind {single, multi(3), "
                 "random(1,2) via seeded torch.randn} x max_iter in {1,2,n/2,n-1,n,n+2} x {f32,f64} x optional tol; values are drawn "
                 "from generators keyed by (VERIF_SEED, cell id); plus eigenvector-start and 1x1 cells, operator cells "
-                "(class x budget x {root, root_inv, root_inv[probes], diagonalization}) and SLQ cells. A case is distinct by its "
+                "(class x budget x {root, root_inv, root_inv[probes], diagonalization}), SLQ cells, coupled cells (kind {generic, mixed, "
+                "rankdef, eigcol, tolneg} x n x batch x number of start vectors x budget, replayed as ONE run of the coupled model) and "
+                "min-diagonal cells. A case is distinct by its "
                 "cell id, repetition and leading matrix entries; non-trivial when n > 1.")
     chk.assumptions = [
         "theorems are over exact ordered fields with a lawful sqrt; float rounding is bridged only by the toleranced checks",
         "torch.linalg.eigh is a parameter of the post-processing model (contract V diag(θ) Vᵀ = T + jI, VᵀV = I)",
-        "the Float model replays single columns; the coupling of columns through the two torch.sum tests is exercised on the "
-        "implementation only (multi-column cells) and compared per column when no extra pass / no disagreement on the count occurs",
+        "the Float model replays single columns (`lz`, layer B) and whole multi-column calls with the coupled model (`lzm`, "
+        "C09/coupled/*: shared count, per-column Q/T prefix up to the column's own breakdown, NaN pattern of an exactly exhausted "
+        "column, the 10 extra passes and the could_reorthogonalize exit with tol = -1); count comparisons are demanded when no beta "
+        "of the model lies in [1e-9, 1e-3]; extra passes triggered by ONE column only are not produced by any cell",
         "StochasticLQ.lanczos_batch is dead code (raises in debug mode: batch_shape=rhs.shape[-2:]); only to_dense is checked",
     ]
 
@@ -1260,6 +1308,8 @@ def replay(chk, payload):
         cl = []
         run_coupled(chk, seed, cl)
         check_coupled(chk, cl)
+    elif p["kind"] == "mins":
+        run_mins(chk, seed)
     elif p["kind"] == "scaled":
         run_scaled(chk, seed)
     elif p["kind"] == "ops":
